@@ -134,7 +134,7 @@ package risc
 // register (monoTags); out-of-order tags are the known finding F11.
 
 //@ spec func wfCtxRAT(ctx *Context) bool = ctx != nil && ctx.committedRAT != nil && ctx.transactionRAT != nil && comp.wfRAT(ctx.committedRAT) && comp.wfRAT(ctx.transactionRAT) \
-//@    && ctx.committedRAT.idx != ctx.transactionRAT.idx && ctx.committedRAT.wrapped != ctx.transactionRAT.wrapped
+//@    && ctx.committedRAT.idx != ctx.transactionRAT.idx && ctx.committedRAT.wrapped != ctx.transactionRAT.wrapped && ctx.committedSequenceID != nil
 //@ spec func monoTags(ctx *Context) bool = forall r RegisterType, i int, i2 int :: comp.validSlot(ctx.transactionRAT, r, i) && comp.validSlot(ctx.transactionRAT, r, i2) && comp.rank(ctx.transactionRAT, r, i) <= comp.rank(ctx.transactionRAT, r, i2) ==> comp.slot(ctx.transactionRAT, r, i).sequenceID >= comp.slot(ctx.transactionRAT, r, i2).sequenceID
 
 //@ func (*Context).TransactionRATWrite
@@ -142,13 +142,16 @@ package risc
 //@   reveal
 //@   requires wfCtxRAT(ctx)
 //@   ensures wfCtxRAT(ctx)
-//@   ensures comp.has(ctx.transactionRAT, exe.Register)
+//@   -- (F11 residual, fixed) a write older than the one the committed value of the register comes from is dead:
+//@   -- nothing changes; otherwise the register has an entry afterwards
+//@   ensures old(sequenceID < ctx.committedSequenceID[exe.Register]) ==> (forall r RegisterType :: comp.has(ctx.transactionRAT, r) == old(comp.has(ctx.transactionRAT, r)) && comp.newest(ctx.transactionRAT, r) == old(comp.newest(ctx.transactionRAT, r)))
+//@   ensures !old(sequenceID < ctx.committedSequenceID[exe.Register]) ==> comp.has(ctx.transactionRAT, exe.Register)
 //@   -- results arrive in completion order; the entries that were more recent and carry a greater tag are
 //@   -- written again on top of the new one (F11). Proved here: the table stays well formed, the register
 //@   -- has an entry, the most recent entry is the new write or one of the re-written younger ones, no other
 //@   -- register and nothing committed changes. That the re-written entries are exactly the younger ones,
 //@   -- in order (monoTags), is exercised by the witness program, not proved.
-//@   ensures comp.newest(ctx.transactionRAT, exe.Register).sequenceID >= sequenceID
+//@   ensures !old(sequenceID < ctx.committedSequenceID[exe.Register]) ==> comp.newest(ctx.transactionRAT, exe.Register).sequenceID >= sequenceID
 //@   ensures forall r RegisterType :: r != exe.Register ==> comp.has(ctx.transactionRAT, r) == old(comp.has(ctx.transactionRAT, r)) && comp.newest(ctx.transactionRAT, r) == old(comp.newest(ctx.transactionRAT, r))
 //@   ensures forall r RegisterType :: comp.has(ctx.committedRAT, r) == old(comp.has(ctx.committedRAT, r)) && comp.newest(ctx.committedRAT, r) == old(comp.newest(ctx.committedRAT, r))
 //@   assigns ctx.transactionRAT.idx[*], ctx.transactionRAT.values[*], ctx.transactionRAT.wrapped[*], all []transactionUnit
@@ -165,8 +168,10 @@ package risc
 
 // RATCommit: every register with uncommitted writes takes the value of its
 // most recent write, every other register's architectural value is
-// unchanged, nothing stays uncommitted. Under monoTags the most recent write
-// is the one with the greatest tag (last postcondition).
+// unchanged, nothing stays uncommitted. Under monoTags (tags in ring order: what
+// the ordered TransactionRATWrite maintains - F11, fixed; its preservation is
+// NOT proved, see undecided_clauses) the most recent write is the one with the
+// greatest tag (last postcondition, conditional on monoTags).
 //@ func (*Context).RATCommit
 //@   mode int
 //@   requires wfCtxRAT(ctx)
@@ -175,12 +180,15 @@ package risc
 //@   ensures forall r RegisterType :: !old(comp.has(ctx.transactionRAT, r)) ==> comp.has(ctx.committedRAT, r) == old(comp.has(ctx.committedRAT, r)) && comp.newest(ctx.committedRAT, r) == old(comp.newest(ctx.committedRAT, r))
 //@   ensures forall r RegisterType :: !comp.has(ctx.transactionRAT, r)
 //@   -- the committed write is the youngest by tag (program order): holds when tags were written in order
-//@   ensures forall r RegisterType, i int :: old(comp.validSlot(ctx.transactionRAT, r, i)) ==> old(comp.newest(ctx.transactionRAT, r).sequenceID) >= old(comp.slot(ctx.transactionRAT, r, i).sequenceID)
-//@   finding F11-out-of-order-tags: !monoTags(ctx)
-//@   assigns ctx.transactionRAT, ctx.committedRAT.idx[*], ctx.committedRAT.values[*], ctx.committedRAT.wrapped[*], all []int32
+//@   ensures old(monoTags(ctx)) ==> (forall r RegisterType, i int :: old(comp.validSlot(ctx.transactionRAT, r, i)) ==> old(comp.newest(ctx.transactionRAT, r).sequenceID) >= old(comp.slot(ctx.transactionRAT, r, i).sequenceID))
+//@   -- (F11 residual, fixed) the tag of the committed write is recorded: an older write of the register that completes later is dropped
+//@   ensures forall r RegisterType :: old(comp.has(ctx.transactionRAT, r)) ==> r in ctx.committedSequenceID && ctx.committedSequenceID[r] == old(comp.newest(ctx.transactionRAT, r).sequenceID)
+//@   ensures forall r RegisterType :: !old(comp.has(ctx.transactionRAT, r)) ==> (r in ctx.committedSequenceID) == old(r in ctx.committedSequenceID) && ctx.committedSequenceID[r] == old(ctx.committedSequenceID[r])
+//@   assigns ctx.transactionRAT, ctx.committedRAT.idx[*], ctx.committedRAT.values[*], ctx.committedRAT.wrapped[*], ctx.committedSequenceID[*], all []int32
 //@   loop 0: invariant comp.wfRAT(ctx.committedRAT) && ctx.transactionRAT == old(ctx.transactionRAT) && ctx.committedRAT == old(ctx.committedRAT)
 //@   loop 0: invariant forall r RegisterType :: visited(r) ==> old(comp.has(ctx.transactionRAT, r)) && comp.has(ctx.committedRAT, r) && comp.newest(ctx.committedRAT, r) == old(comp.newest(ctx.transactionRAT, r).value)
 //@   loop 0: invariant forall r RegisterType :: !visited(r) ==> comp.has(ctx.committedRAT, r) == old(comp.has(ctx.committedRAT, r)) && comp.newest(ctx.committedRAT, r) == old(comp.newest(ctx.committedRAT, r))
+//@   loop 0: invariant ctx.committedSequenceID == old(ctx.committedSequenceID) && (forall r RegisterType :: visited(r) ==> r in ctx.committedSequenceID && ctx.committedSequenceID[r] == old(comp.newest(ctx.transactionRAT, r).sequenceID)) && (forall r RegisterType :: !visited(r) ==> (r in ctx.committedSequenceID) == old(r in ctx.committedSequenceID) && ctx.committedSequenceID[r] == old(ctx.committedSequenceID[r]))
 
 // RATRollback(s): every register takes the value of its most recent
 // uncommitted write older than s (tag < s); registers without such a write
@@ -192,8 +200,8 @@ package risc
 //@   ensures forall r RegisterType, i int :: old(comp.validSlot(ctx.transactionRAT, r, i)) && old(comp.slot(ctx.transactionRAT, r, i).sequenceID) < sequenceID && (forall i2 int :: old(comp.validSlot(ctx.transactionRAT, r, i2)) && old(comp.slot(ctx.transactionRAT, r, i2).sequenceID) < sequenceID ==> old(comp.rank(ctx.transactionRAT, r, i)) <= old(comp.rank(ctx.transactionRAT, r, i2))) ==> comp.has(ctx.committedRAT, r) && comp.newest(ctx.committedRAT, r) == old(comp.slot(ctx.transactionRAT, r, i).value)
 //@   ensures forall r RegisterType :: !(exists i int :: old(comp.validSlot(ctx.transactionRAT, r, i)) && old(comp.slot(ctx.transactionRAT, r, i).sequenceID) < sequenceID) ==> comp.has(ctx.committedRAT, r) == old(comp.has(ctx.committedRAT, r)) && comp.newest(ctx.committedRAT, r) == old(comp.newest(ctx.committedRAT, r))
 //@   ensures forall r RegisterType :: !comp.has(ctx.transactionRAT, r)
-//@   assigns ctx.transactionRAT, ctx.committedRAT.idx[*], ctx.committedRAT.values[*], ctx.committedRAT.wrapped[*], all []int32
-//@   loop 0: invariant comp.wfRAT(ctx.committedRAT) && ctx.transactionRAT == old(ctx.transactionRAT) && ctx.committedRAT == old(ctx.committedRAT)
+//@   assigns ctx.transactionRAT, ctx.committedRAT.idx[*], ctx.committedRAT.values[*], ctx.committedRAT.wrapped[*], ctx.committedSequenceID[*], all []int32
+//@   loop 0: invariant comp.wfRAT(ctx.committedRAT) && ctx.transactionRAT == old(ctx.transactionRAT) && ctx.committedRAT == old(ctx.committedRAT) && ctx.committedSequenceID == old(ctx.committedSequenceID)
 //@   loop 0: invariant forall r RegisterType, i int :: visited(r) && old(comp.validSlot(ctx.transactionRAT, r, i)) && old(comp.slot(ctx.transactionRAT, r, i).sequenceID) < sequenceID && (forall i2 int :: old(comp.validSlot(ctx.transactionRAT, r, i2)) && old(comp.slot(ctx.transactionRAT, r, i2).sequenceID) < sequenceID ==> old(comp.rank(ctx.transactionRAT, r, i)) <= old(comp.rank(ctx.transactionRAT, r, i2))) ==> comp.has(ctx.committedRAT, r) && comp.newest(ctx.committedRAT, r) == old(comp.slot(ctx.transactionRAT, r, i).value)
 //@   loop 0: invariant forall r RegisterType :: visited(r) ==> (exists i int :: old(comp.validSlot(ctx.transactionRAT, r, i)) && old(comp.slot(ctx.transactionRAT, r, i).sequenceID) < sequenceID)
 //@   loop 0: invariant forall r RegisterType :: !visited(r) ==> comp.has(ctx.committedRAT, r) == old(comp.has(ctx.committedRAT, r)) && comp.newest(ctx.committedRAT, r) == old(comp.newest(ctx.committedRAT, r))
